@@ -131,7 +131,8 @@ def apply_constraint(
     if constraint_name is None or constraint_name == "":
         return scales
     constraint = getattr(sys.modules[__name__], constraint_name, None)
-    if constraint is None:
+    is_constraint_fn = constraint_name in __all__ and constraint is not apply_constraint
+    if constraint is None or not is_constraint_fn:
         raise ValueError(
             f"Constraint: {constraint_name} is not a valid constraint (see"
             " unit_scaling.constraints for available options)."
